@@ -55,6 +55,23 @@ fn rebuild_all(acc: &mut Acc, input: &[u8], h: &v2::Header) {
         .and_then(|b| b.write_payload(h.tlvs()))
         .and_then(|b| b.build());
     cmp(acc, "rebuild-from-tlvs-section-differs", "… .write_payload(tlvs()) …", b);
+    // (B') the same after the cursor has been advanced by one and by two items
+    for steps in 1..=2usize {
+        let mut t = h.tlvs();
+        let mut advanced = 0;
+        for _ in 0..steps {
+            if t.next().is_some() {
+                advanced += 1;
+            }
+        }
+        if advanced == steps {
+            let b2 = v2::Builder::new(vc, afp)
+                .write_payload(h.address_bytes())
+                .and_then(|b| b.write_payload(t))
+                .and_then(|b| b.build());
+            cmp(acc, "rebuild-from-tlvs-section-differs", "… .write_payload(tlvs() after next()) …", b2);
+        }
+    }
     // (C) decoded items, when the section is well-formed
     let wf = otlv::well_formed(h.tlv_bytes());
     if wf {
@@ -110,6 +127,7 @@ pub fn run(run: &Run) {
     run.explore(&u2::LenUniverse { presents: u2::Presents::AcceptedStride(run.tier.pick(7, 1)), name: "U2-len/accepted-stride" });
     run.explore(&u2::sig_universe());
     run.explore(&u2::addr_universe());
+    run.explore(&u2::anybyte_universe());
     run.explore(&u2::byte_universe(run.tier.pick(3, 4)));
     run.explore(&super::c11::EmbeddedTlv { n: run.tier.pick(7, 9) });
     run.explore(&super::c11::EmbeddedText { n: run.tier.pick(7, 9) });
